@@ -20,11 +20,25 @@ ASSUMPTIONS = _c02.ASSUMPTIONS + [
 
 
 def gen_cases(tier, rng):
-    n = 1500 if tier == 'quick' else 15000
+    n = 1900 if tier == 'quick' else 15000
     cases = []
     stats = {}
     cases.append('H:f=0 arg:l,left:b0:init=0/req=r arg:r,right:b1:init=0 argv:2d6c,2d2d7269676874 exp:b0=1;b1=1')
     cases.append('H:f=0 arg:input-file:s0: arg:input-dir:s1: arg:input:s2: argv:2d2d696e707574,35 exp:s0=s-;s1=s-;s2=s35')
+    # exhaustive small scope for requirements: two flags that both require the same third argument, each naming
+    # it by its short or by its long key; every order of every subset; the required argument spelled both ways
+    import itertools
+    for sx, sy in itertools.product(['o', 'output'], repeat=2):
+        defs = 'arg:c,compress:b0:init=0/req=%s arg:e,encrypt:b1:init=0/req=%s arg:o,output:s0:' % (sx, sy)
+        for r in (1, 2, 3):
+            for perm in itertools.permutations(['c', 'e', 'o'], r):
+                ok = all(('o' in perm and perm.index('o') > perm.index(x)) for x in perm if x in ('c', 'e'))
+                for ospell in (['-o', 'f'], ['--output=f'], ['--out', 'f']):
+                    w = []
+                    for x in perm:
+                        w += ospell if x == 'o' else ['-' + x]
+                    exp = ('b0=%d;b1=%d;s0=%s' % ('c' in perm, 'e' in perm, 's66' if 'o' in perm else 's-')) if ok else 'reject'
+                    cases.append('H:f=0 %s %s exp:%s' % (defs, A.argv_tok(w), exp))
     guard = 0
     while len(cases) < n and guard < n * 30:
         guard += 1
